@@ -20,6 +20,10 @@ def x_obligations(tier):
     return o
 
 
+def z_obligations(tier):
+    return [dict(name="C16-conf-getter-instances[shipped]", module="tplz3.misc", func="getter_instances", args={"conf": "shipped"}, timeout=120, family="C16-conf")]
+
+
 META = {
     "functions": ["spil.sid.read.getter.Getter.get/get_one/get_data/get_attr", "spil.sid.read.getters.getter_finder.GetByFinder.get/do_get", "spil.sid.read.getters.getter_all.GetFromAll.get/get_data/get_attr/get_getter",
                   "spil.sid.pathops.getter_paths.GetFromPaths.get_data", "spil.sid.pathops.find_paths.FindInPaths", "miniA spil_data_conf.get_getter_for"],
